@@ -28,9 +28,12 @@ theorem find_overlaps_is_source (sc : Scaffold) (bait : Fragment) (fuel : Nat) (
       rw [List.isEmpty_eq_false_iff]; intro h; rw [h] at hlen; exact hemp (List.eq_nil_of_length_eq_zero hlen.symm)
     simp -zeta +zetaDelta only [hne, hne2, Bool.not_false, Bool.not_true, Bool.false_eq_true, if_false]
     generalize hI : buildIndex sc.rows = idx at *
-    -- the search loop carries `a`, `z`, `ovr`, packed in the translator's canonical (sorted-by-name) order; the order in
-    -- which the source assigns them is tried too, so that the proof does not depend on which it is
+    -- the search loop carries `a`, `z`, `ovr`, packed in the translator's canonical order (by type, then by name: `ovr : Option Int`
+    -- first, then `a`, `z : Int`); the other orders (all by name; the order of assignment in the source) are tried too, so that the
+    -- proof does not depend on which it is
     first
+      | rw [ImpLookup.whileLoop_bsearch (fun a z o => (o, a, z)) idx bait.start bait.stop _ _ ?hc ?hb fuel 0 idx.length
+              (Nat.le_refl _) (by omega) _ ?hs]
       | rw [ImpLookup.whileLoop_bsearch (fun a z o => (a, o, z)) idx bait.start bait.stop _ _ ?hc ?hb fuel 0 idx.length
               (Nat.le_refl _) (by omega) _ ?hs]
       | rw [ImpLookup.whileLoop_bsearch (fun a z o => (a, z, o)) idx bait.start bait.stop _ _ ?hc ?hb fuel 0 idx.length
